@@ -74,9 +74,11 @@ def main(argv):
     for use_vpc in (True, False):
         for trial in range(60 if ctx.thorough else 14):
             C = Cluster(rng)
+            # the configuration version the endpoint reports is a counter of the cluster's life so far: any number, growing with every change
+            C.version = [0, 7, 8, 9, 97, 98, 99, 998, 2 ** 31 - 3, 1, 5, 12, 95, 4, 9999][trial % 15] - 1
             W = C.world
             hist = []
-            steps = rng.randrange(1, 5)
+            steps = rng.randrange(1, 5) if trial % 3 else 4
             cur = rng.sample(pool_nodes, rng.randrange(1, 7))
             desc = []
             client = None
@@ -96,10 +98,10 @@ def main(argv):
                     cur = list(cur)
                     rng.shuffle(cur)
                 C.advertised = list(cur)
-                C.version += 1
+                C.version += 1 if (trial + st) % 4 else 2
                 hist.append(list(cur))
                 desc.append([f"{h.split('.')[0]}|{ip}|{p}" for h, ip, p in cur])
-                case = {"use_vpc": use_vpc, "history": desc}
+                case = {"use_vpc": use_vpc, "history": desc, "config_version": C.version}
                 W.tag = (trial, st)
                 try:
                     if client is None:
